@@ -37,6 +37,7 @@ type Case struct {
 	Delay    int              `json:"delay,omitempty"`
 	Impl     string           `json:"impl,omitempty"` // repository / report implementation
 	Doc      []byte           `json:"doc,omitempty"`  // document bytes (base64 in the replay file)
+	Pad      int              `json:"pad,omitempty"`  // bytes of JSON whitespace inserted after the first separator at run time
 	Frag     []int            `json:"frag,omitempty"`
 	Assets   []AssetSpec      `json:"assets,omitempty"`
 	Names    []string         `json:"names,omitempty"`
@@ -89,6 +90,7 @@ type AssetSpec struct {
 	TgtFrom   int    `json:"tgt_from"`
 	TgtN      int    `json:"tgt_n"`
 	TgtAbsent bool   `json:"tgt_absent,omitempty"`
+	TgtEmpty  bool   `json:"tgt_empty_file,omitempty"` // file-system target: a zero-byte <name>.csv registers the asset
 	SrcAbsent bool   `json:"src_absent,omitempty"`
 	Seed      int64  `json:"seed"`
 }
